@@ -73,7 +73,7 @@ def msg_request_vote(ctx):
         common_frame(ctx, old, so, ['raftCurrentTerm', 'votedForNodeId', 'raftState', 'raftLog', 'raftCommitIndex'], 'C18:O18.1.readonly')
         return
     stepped = mt > t0
-    ctx.prove(t1 == Max(t0, mt), 'C03:R1.term-is-max')
+    ctx.prove(t1 == Max(t0, mt), 'C03+C07:R1.term-is-max')
     ctx.prove(Implies(stepped, r1 == FOLL), 'C03:R1.stepdown-on-higher-term')
     ctx.prove(Implies(Not(stepped), r1 == r0), 'C03:R1.role-kept-without-higher-term')
     granted = len(out) > 0
@@ -83,14 +83,14 @@ def msg_request_vote(ctx):
         ctx.prove(And(Eq(to, node), m.items.get('type') == 'response_vote'), 'C03:R2.reply-goes-to-requester')
         ctx.prove(Eq(m.items['term'], mt), 'C03:R2.reply-carries-request-term')
         ctx.prove(mt == t1, 'C03+C07:R2.vote-only-for-current-term')
-        ctx.prove(Eq(vf1, NodeId(node.idx)), 'C03:R2.vote-recorded')
+        ctx.prove(Eq(vf1, NodeId(node.idx)), 'C03+C07:R2.vote-recorded')
         ctx.prove(Implies(Not(stepped), Eq(vf0, None)), 'C03+C07:R2.single-vote-per-term')
         lt, li = log.term_at(log.last_idx()), log.last_idx()
         ctx.prove(Or(llt > lt, And(llt == lt, lli >= li)), 'C03:R2.candidate-log-up-to-date')
         ctx.prove(r1 != LEADER, 'C03:R2.leader-does-not-vote')
     else:
-        ctx.prove(Implies(Not(stepped), Eq(vf1, vf0)), 'C03:R1.vote-unchanged-without-grant')
-        ctx.prove(Implies(stepped, Eq(vf1, None)), 'C03:R1.vote-cleared-on-higher-term')
+        ctx.prove(Implies(Not(stepped), Eq(vf1, vf0)), 'C03+C07:R1.vote-unchanged-without-grant')
+        ctx.prove(Implies(stepped, Eq(vf1, None)), 'C03+C07:R1.vote-cleared-on-higher-term')
     ctx.prove(Or(Eq(vf1, vf0), stepped, Eq(vf0, None)), 'C03+C07:R1.vote-changes-only-from-none-or-new-term')
     common_frame(ctx, old, so, ['raftLog', 'raftCommitIndex', 'raftLastApplied', 'otherNodes', 'raftMatchIndex', 'votesCount'],
                  'C03+C04:request_vote')
@@ -154,8 +154,8 @@ def msg_response_vote(ctx):
     v0, v1 = old.get('votesCount'), so.get('votesCount')
     nv = so.nvoters(old)
     counted = And(r0 == CAND, mt == t0)
-    ctx.prove(t1 == t0, 'C03:R1.term-unchanged')
-    ctx.prove(Eq(so.get('votedForNodeId'), old.get('votedForNodeId')), 'C03:R1.vote-unchanged')
+    ctx.prove(t1 == t0, 'C03+C07:R1.term-unchanged')
+    ctx.prove(Eq(so.get('votedForNodeId'), old.get('votedForNodeId')), 'C03+C07:R1.vote-unchanged')
     ctx.prove(Implies(counted, v1 == v0 + 1), 'C03:R3.vote-counted-once')
     ctx.prove(Implies(Not(counted), And(v1 == v0, r1 == r0)), 'C03+C20:R3.stale-vote-ignored')
     ctx.prove(Implies(And(r1 == LEADER, r0 != LEADER), And(counted, majority(v1, nv))), 'C03:R3.leader-only-with-majority')
@@ -228,13 +228,13 @@ def msg_next_node_idx(ctx, U=None):
     for i in range(so.U):
         me = Eq(node.idx, i)
         ctx.prove(Implies(And(isl, me, m0.pres[i]), m1.vals[i] == Max(m0.vals[i], Ite(succ, nni - 1, m0.vals[i]))),
-                  'C04:R10.match-is-max-of-old-and-acked')
+                  'C04+C01:R10.match-is-max-of-old-and-acked')
         ctx.prove(Implies(And(m0.pres[i], m1.vals[i] != m0.vals[i]), And(isl, me, succ, m1.vals[i] == nni - 1, m1.vals[i] > m0.vals[i])),
-                  'C04:R10.match-only-from-success')
+                  'C04+C01:R10.match-only-from-success')
         ctx.prove(Implies(Not(And(isl, me)), And(Iff(m1.pres[i], m0.pres[i]), Iff(n1.pres[i], n0.pres[i]),
                                                  Implies(n0.pres[i], n1.vals[i] == n0.vals[i]),
                                                  Iff(l1.pres[i], l0.pres[i]), Implies(l0.pres[i], l1.vals[i] == l0.vals[i]))),
-                  'C04+C20:R10.other-nodes-untouched')
+                  'C04+C20+C01:R10.other-nodes-untouched')
         ctx.prove(Implies(And(isl, me, reset, Not(And(succ, m0.vals[i] < nni - 1))), n1.vals[i] == nni), 'C01:R10.reset-sets-nextIndex')
         ctx.prove(Implies(And(isl, me), And(l1.pres[i], l1.vals[i] >= so.now)), 'C20:O20.2.lastResponse-refreshed-on-reply')
     common_frame(ctx, old, so, ['raftCommitIndex', 'raftLastApplied', 'raftCurrentTerm', 'votedForNodeId', 'raftState', 'raftLog',
@@ -439,7 +439,7 @@ def msg_append_entries(ctx, kind):
         common_frame(ctx, old, so, ['raftCurrentTerm', 'votedForNodeId', 'raftState', 'raftLog', 'raftCommitIndex', 'raftLeader',
                                     'raftLastApplied'], 'C03+C01:R1.stale-leader-ignored')
         return
-    ctx.prove(t1 == Max(t0, mt), 'C03:R1.term-is-max')
+    ctx.prove(t1 == Max(t0, mt), 'C03+C07:R1.term-is-max')
     ctx.prove(so.get('commandsLocalCounter') >= old.get('commandsLocalCounter'), 'C02:O2.3c.request-ids-never-reused.counter-monotone')
     ctx.prove(so.get('raftState') == FOLL, 'C03:R1.follower-after-append_entries')
     ctx.prove(Eq(so.get('raftLeader'), node), 'C03:leader-recorded')
@@ -486,7 +486,7 @@ def msg_append_entries(ctx, kind):
             ctx.prove(c1 <= Max(c0, Min(lc, v_idx)), 'C01+C04:R8.commit-within-verified-prefix')
             ctx.prove(And(len(replies) == 1, Eq(replies[0].items['success'], True), Eq(replies[0].items['next_node_idx'], v_idx + 1)),
                       'C01+C09:O1.5.snapshot-ack')
-        ctx.prove(Implies(c1 != c0, Eq(log.meta_commit, c1)), 'C04:commit-persisted')
+        ctx.prove(Implies(c1 != c0, Eq(log.meta_commit, c1)), 'C04+C06:commit-persisted')
         return
     # regular / finish
     p, pt = ex['p'], ex['pt']
@@ -528,9 +528,9 @@ def msg_append_entries(ctx, kind):
             ctx.prove(Implies(conflict_free, And(log.has(w), log.term_at(w) == olog.term_at(w), log.cmdf(w - first0) == olog.cmdf(w - first0))),
                       'C04+C01:R7.no-deletion-without-conflict')
         ctx.prove(c1 <= Max(c0, Min(lc, v_idx)), 'C01+C04+C02:R8.commit-within-verified-prefix')
-        ctx.prove(c1 >= c0, 'C04:R8.commit-monotone')
+        ctx.prove(c1 >= c0, 'C04+C01:R8.commit-monotone')
         ctx.prove(Implies(And(lc > c0, v_idx > c0), c1 > c0), 'C01:R8.commit-advances-when-leader-ahead')
-        ctx.prove(Implies(c1 != c0, Eq(log.meta_commit, c1)), 'C04:commit-persisted')
+        ctx.prove(Implies(c1 != c0, Eq(log.meta_commit, c1)), 'C04+C06:commit-persisted')
         # O6.1: every journal append precedes the acknowledgement (checked on the ghost event order)
         ctx.prove(_acks_after_appends(ctx), 'C06:O6.1.ack-after-append')
     else:
